@@ -10,8 +10,9 @@ PROPERTY = {
     "technique": "contract-based deductive verification: Verus contract on the extracted validation function (+ bounded Kani twins)",
     "timeout": 900,
     "kani": [
-        Harness("c20_name_ascii_len5", "C20.name.ascii_le5", "BOUNDED", "Ok <=> 1..=48 chars all [A-Za-z0-9_]; name stored unchanged; error kinds", bound="ASCII names of length <= 5", twin=True, functions=[F + "VerifiedKeyspaceName::new", F + "VerifiedKeyspaceName::verify_keyspace_name_is_valid", F + "VerifiedKeyspaceName::as_str"]),
-        Harness("c20_name_non_ascii_rejected", "C20.name.non_ascii", "BOUNDED", "a name with any 2-byte UTF-8 character is rejected", bound="3-byte names 'a' + one 2-byte character", twin=True, functions=[F + "VerifiedKeyspaceName::new"]),
+        Harness("c20_name_ascii_len2", "C20.name.ascii_le2", "BOUNDED", "Ok <=> 1..=48 chars all [A-Za-z0-9_]; name stored unchanged; error kinds", bound="ASCII names of length <= 2", twin=True, functions=[F + "VerifiedKeyspaceName::new", F + "VerifiedKeyspaceName::verify_keyspace_name_is_valid"]),
+        Harness("c20_name_ascii_len5", "C20.name.ascii_le5", "BOUNDED", "Ok <=> 1..=48 chars all [A-Za-z0-9_]; name stored unchanged; error kinds", bound="ASCII names of length <= 5", twin=True, tier="thorough", functions=[F + "VerifiedKeyspaceName::new", F + "VerifiedKeyspaceName::verify_keyspace_name_is_valid", F + "VerifiedKeyspaceName::as_str"]),
+        Harness("c20_name_non_ascii_rejected", "C20.name.non_ascii", "BOUNDED", "a name with any 2-byte UTF-8 character is rejected", bound="3-byte names 'a' + one 2-byte character", twin=True, tier="thorough", functions=[F + "VerifiedKeyspaceName::new"]),
         Harness("c20_canary_everything_rejected", "C20.canary", "BOUNDED", "a false claim must be refuted", carries=False, canary=True, twin=True),
     ],
     "verus": [
